@@ -22,6 +22,7 @@ from concurrent.futures import ThreadPoolExecutor
 from pathlib import Path
 
 from .. import PY, VERIF
+from ..c09_lib import pack_params
 from ..repo import child_env
 from ..tlaval import iter_dump
 from ..tlc import MachineryError, run_tlc
@@ -34,7 +35,7 @@ INVS = ("INVARIANT Inv_Confined\nINVARIANT Inv_Cleanup\nINVARIANT Inv_SkipRules\
 TRACE_CFG = ('SPECIFICATION TraceSpec\nCONSTRAINT TraceAccept\nCONSTANTS Fmts = {"zip"}\n MemberTypes <- MT_C10\n'
              ' MaxMembers = 0\n MaxK = 0\n Deviations = {}\n Mode = "%s"\n')
 SENS = {"RereadUnchecked": "Inv_Confined / Inv_Closed", "NoCleanupOnEarlyExit": "Inv_Cleanup",
-        "ExtractToCwd": "Inv_Confined", "YieldHidden": "Inv_SkipRules"}
+        "FollowHardlinks": "Inv_SkipRules", "ExtractToCwd": "Inv_Confined", "YieldHidden": "Inv_SkipRules"}
 
 
 def dump_cases(ctx, universe, max_members, max_k, name):
@@ -97,6 +98,10 @@ def describe(t, reached, confine=False):
     if e["a"] in ("CNext", "CThrow") and e["out"] == "item":
         if e["canary"]:
             return head + f"result {e['path']!r} contains the content of a host file (canary token)"
+        bad = [j for j in e.get("own", []) if t["hdr"]["members"][j - 1]["kind"] not in ("doc", "emptyFile", "corrupt")]
+        if bad:
+            return head + (f"result {e['path']!r} carries the content (token words) of member(s) {bad} "
+                           f"{[(t['hdr']['members'][j - 1]['kind'], names[j - 1]) for j in bad]}, which must never produce results")
         if e["m"] == 0:
             return head + f"result labelled {e['path']!r} / {e['fn']!r} does not carry the path of any member"
         m = t["hdr"]["members"][e["m"] - 1]
@@ -133,7 +138,7 @@ def run(ctx):
         jobs.append(("Archive: reference design, MT_C09s lists <= 3, histories k <= 1: all invariants", None,
                      pool.submit(run_tlc, "Archive", "SPECIFICATION Spec\n" + BASE % ("MT_C09s", 3, 1, "") + INVS,
                                  scratch=ctx.scratch, timeout=2400, heap="8g", workers=4)))
-    for d in (SENS if thorough else ["RereadUnchecked", "NoCleanupOnEarlyExit"]):
+    for d in (SENS if thorough else ["RereadUnchecked", "NoCleanupOnEarlyExit", "FollowHardlinks"]):
         jobs.append((f"Archive sensitivity: deviation {d} must violate {SENS[d]}", d,
                      pool.submit(run_tlc, "Archive", "SPECIFICATION Spec\n" + BASE % (uni, mm, mk, f'"{d}"') + INVS,
                                  scratch=ctx.scratch, expect_fail=True, timeout=900, workers=4)))
@@ -151,10 +156,11 @@ def run(ctx):
     for n, c in enumerate(cases, start=1):
         c.update(id=f"c{n}", n=n, seed=rng.randrange(1 << 30), rich=False)
         if c["fmt"] == "zip":
-            c["variants"] = [{"method": rng.choice(["stored", "deflated"])}]
+            c["variants"] = [{"method": rng.choice(["stored", "deflated"]), "pack": pack_params("zip", "", rng)}]
         elif c["fmt"] == "tar":
             # DON'T-CARE: a plain tar without members is 10240 NUL bytes, no magic to detect
-            c["variants"] = [{"comp": rng.choice(["", "", "gz", "bz2", "xz"] if c["members"] else ["gz", "bz2", "xz"])}]
+            comp = rng.choice(["", "", "gz", "bz2", "xz"] if c["members"] else ["gz", "bz2", "xz"])
+            c["variants"] = [{"comp": comp, "pack": pack_params("tar", comp, rng)}]
         else:
             c["variants"] = [{"coder": rng.choice(["copy", "lzma", "lzma2", "mixed"]),
                               "layout": rng.choice(["solid", "perfile", "mixed"]), "enc": rng.random() < 0.4}]
